@@ -14,7 +14,8 @@ PROPS = {
           'exceeding the length field, or a mutated encoding; distinct = distinct (codec, shape string, content length, depth, mutation).',
   'quick': {'cases': 6400, 'max_size': 200, 'exhaustive': True, 'wall_s': 600},
   'thorough': {'cases': 128000, 'max_size': 400, 'exhaustive': True, 'wall_s': 1800, 'fuzz': {'runs': 150000, 'max_len': 600}},
-  'essential_classes': ['tree:overflow-tree', 'element:overflow-tree', 'tree:buf-too-small', 'element:buf-too-small', 'parse:nested-mistiled', 'stream:complete', 'stream:truncated'],
+  'sim': ['simsock'],
+  'essential_classes': ['mode:edit', 'edit:element-emptied', 'stream:many-segments', 'tree:overflow-tree', 'element:overflow-tree', 'tree:buf-too-small', 'element:buf-too-small', 'parse:nested-mistiled', 'stream:complete', 'stream:truncated'],
   'assumptions': ['reference encoder/decoder in ref/tlv.cpp is correct (self-tested in setup)', 'clang ASan/UBSan report out-of-bounds accesses'],
  }, 'C17': {
   'technique': 'property-based testing (rapidcheck) with exhaustive corruption neighbourhoods against a reference base-32/CRC-32 codec',
@@ -74,7 +75,7 @@ PROPS = {
   'quick': {'cases': 9600, 'max_size': 300, 'exhaustive': True, 'wall_s': 900},
   'thorough': {'cases': 160000, 'max_size': 400, 'exhaustive': True, 'wall_s': 3400, 'fuzz': {'runs': 400000, 'max_len': 4096, 'jobs': 16}},
   'leaks': True,
-  'essential_classes': ['sig:parsed', 'aggr:parsed', 'ext:parsed', 'pubfile:parsed', 'tlv:parsed', 'element:parsed', 'mode:tree-mutation', 'mode:byte-mutation', 'mode:raw', 'context-reuse-checks'],
+  'essential_classes': ['mode:model-signature', 'sig:parsed', 'aggr:parsed', 'ext:parsed', 'pubfile:parsed', 'tlv:parsed', 'element:parsed', 'mode:tree-mutation', 'mode:byte-mutation', 'mode:raw', 'context-reuse-checks'],
   'assumptions': ['only the generated inputs are covered; nothing is claimed for inputs not generated'],
  }, 'C16': {
   'technique': 'model-based property testing (rapidcheck + exhaustive leaf counts) against a reference forest merge and the reference chain formula',
@@ -186,6 +187,7 @@ PROPS = {
  }, 'C13': {
   'technique': 'stateful model-based testing (rapidcheck schedules + exhaustive short schedules) over a simulated socket layer and clock, history invariants after every step',
   'level_text': 'Schedules of {add request, run, valid / duplicate / early / unknown-id / stale / bad-MAC / error-status / error-PDU / pushed-config / garbage reply, deliver k bytes, close, reset, refuse next connection, advance clock, block sends} '
+                'A fifth of the generated cases drive the HTTP back-end (net_http_curl_async.c) behind the stub libcurl multi interface: every request is its own transfer that the harness completes as valid reply / HTTP 503 with a text body / non-KSI 200 body / cut PDU / error status / error PDU / bad MAC / transport error; the same exactly-once, own-valid-reply, cache-full and pending-count clauses are checked. '
                 'are executed against the asynchronous signing service over in-memory sockets with a harness-owned clock; after every step the history invariants are checked against a model: a returned handle is an accepted not-yet-returned request in a final state; '
                 'a response only if an authentic status-zero reply with that id was delivered after the request had completely reached the server, with a signature for that request\'s hash; an error only with a cause that occurred (or a timeout that has elapsed on the simulated clock); '
                 'cache-full exactly at capacity; waiting / pending+received counts equal the outstanding requests; a drain phase makes never-lost checkable. Exhaustive for all schedules up to length 4 (5) at cache sizes 1 and 2.',
@@ -195,7 +197,7 @@ PROPS = {
   'quick': {'cases': 4800, 'max_size': 300, 'exhaustive': True, 'wall_s': 1200},
   'thorough': {'cases': 96000, 'max_size': 400, 'exhaustive': True, 'wall_s': 3400},
   'sim': ['simsock', 'fakecurl', 'simclock'],
-  'essential_classes': ['add:accepted', 'add:cache-full', 'returned:response', 'returned:error', 'op:stale', 'op:early-reply', 'early-reply-queued', 'stale-reply-queued', 'op:close', 'op:reset', 'op:refuse-next', 'op:advance', 'op:block-send', 'closed-inside-a-pdu', 'push-config-delivered', 'cache-size:5+'],
+  'essential_classes': ['backend:http', 'http:transfer-faults', 'http:request-after-failed-transfer', 'http:cache-full', 'add:accepted', 'add:cache-full', 'returned:response', 'returned:error', 'op:stale', 'op:early-reply', 'early-reply-queued', 'stale-reply-queued', 'op:close', 'op:reset', 'op:refuse-next', 'op:advance', 'op:block-send', 'closed-inside-a-pdu', 'push-config-delivered', 'cache-size:5+'],
   'assumptions': ['simulated socket semantics as documented in sim/simnet.hpp'],
  }, 'C14': {
   'technique': 'metamorphic property testing (rapidcheck + exhaustive split points): chunked vs unchunked delivery over simulated sockets, request-stream integrity, faults at generated byte offsets',
